@@ -230,6 +230,12 @@ def run(cx):
                 ie = cn.c(norm(P.local(st['lhs']['p'][1]['idx'], b, i))) if 'idx' in st['lhs']['p'][1] else ''
                 if v.startswith('overflowing_add($a[SubWithOverflow(15, each(') and v.endswith('.0') and ie == 'SubWithOverflow(15, each(Range::Range{0, 16})).0':
                     st_ok = True
+            elif st['k'] == 'assign' and st['lhs']['p'] == ['deref']:
+                # `*byte = t` with byte the element of `a[..16].iter_mut().rev()`: the same store in index form
+                v = cn.c(norm(P.rvalue(st['rv'], b, i, 0)))
+                tgt = cn.c(norm(P.local(st['lhs']['l'], b, i)))
+                if v.startswith('overflowing_add($a[SubWithOverflow(15, each(') and v.endswith('.0') and tgt == '$a[SubWithOverflow(15, each(Range::Range{0, 16})).0]':
+                    st_ok = True
         cx.add('I-CTR', 'block_add_one/store', st_ok, 'each byte is replaced by the wrapped sum at the same index', fn.loc())
         # stops when no carry
         sw = [p for _, p, _, _ in G.bool_switches(fn, P)]
